@@ -1,5 +1,11 @@
 package bgv
 
+import (
+	"math/big"
+
+	"github.com/tuneinsight/lattigo/v6/core/rlwe"
+)
+
 // C05: the integer evaluator is a ring homomorphism on the phase.  With phi(ct) = c0 + c1 s + c2 s^2 the lattigo
 // BGV convention is T*phi = scale*m + T*e, so the documented operations are the ring identities
 //   Add/Sub (equal scales):   phi_out = phi_0 +- phi_1,                      scale_out = scale
@@ -112,4 +118,95 @@ func VerifH_C05_MulRescale() {
 	d2 := vAtomCiphertext(c, 2, 1, "w", 1)
 	vAssert(c.Eval.Relinearize(d2, NewCiphertext(params, 1, 1)) != nil, "Relinearize-without-key-is-an-error")
 	vCover("C05-mul-reached")
+}
+
+// Scalar and vector operands: every integer kind (uint64, int64 incl. negative, int, *big.Int incl. > t) multiplies /
+// adds the centred residue modulo t; a vector operand is encoded at the first operand's scale and level whatever the
+// output held before; the output takes the level of the operands even if it was allocated higher.
+func VerifH_C05_ScalarAndVectorOperands() {
+	c, eval := vSetup()
+	params := c.Params
+	t := params.PlaintextModulus()
+	bt := new(big.Int).SetUint64(t)
+	level := 1
+	r := params.RingQ().AtLevel(level)
+	a := vAtomCiphertext(c, 1, level, "a", 3)
+	pa := vPhase(c, a)
+	centred := func(v *big.Int) *big.Int {
+		x := new(big.Int).Mod(v, bt)
+		if x.Cmp(new(big.Int).Rsh(bt, 1)) == 1 {
+			x.Sub(x, bt)
+		}
+		return x
+	}
+	type sc struct {
+		name string
+		op   interface{}
+		val  *big.Int
+	}
+	huge, _ := new(big.Int).SetString("123456789012345678901234567890", 10)
+	scalars := []sc{
+		{"uint64-5", uint64(5), big.NewInt(5)},
+		{"uint64-t-plus-2", t + 2, new(big.Int).SetUint64(t + 2)},
+		{"int64-minus-3", int64(-3), big.NewInt(-3)},
+		{"int64-min", int64(-1 << 63), big.NewInt(-1 << 63)},
+		{"int-minus-7", -7, big.NewInt(-7)},
+		{"bigint-huge", huge, huge},
+		{"bigint-negative", big.NewInt(-11), big.NewInt(-11)},
+	}
+	for _, s := range scalars {
+		k := centred(s.val)
+		want := r.NewPoly()
+		r.MulScalarBigint(pa, k, want)
+		// output allocated at a higher level and with another scale: it must take the operand's level
+		out := NewCiphertext(params, 1, params.MaxLevel())
+		out.Scale = params.NewScale(9)
+		vAssert(eval.Mul(a, s.op, out) == nil, "Mul-"+s.name+"-no-error")
+		vAssert(out.Level() == level, "Mul-"+s.name+"-output-takes-the-operand-level")
+		if out.Level() == level {
+			vAssertPolyEq(r, vPhase(c, out), want, "Mul-"+s.name+"-phase-is-the-centred-scalar-times-phase")
+		}
+		vAssert(out.Scale.Uint64()%t == 3, "Mul-"+s.name+"-scale-unchanged")
+		// addition of a scalar: the constant scale*k (mod t), lifted with t^-1, is added to the phase
+		out2 := NewCiphertext(params, 1, params.MaxLevel())
+		out2.Scale = params.NewScale(9)
+		vAssert(eval.Add(a, s.op, out2) == nil, "Add-"+s.name+"-no-error")
+		vAssert(out2.Level() == level && out2.Scale.Uint64()%t == 3, "Add-"+s.name+"-level-and-scale")
+		// the constant added to every NTT slot: centred(k·scale mod t)·t^-1 (the centred representative: the lift of a
+		// residue is only defined up to a multiple of t, i.e. up to noise)
+		kc := centred(new(big.Int).Mul(s.val, new(big.Int).SetUint64(a.Scale.Uint64())))
+		kc.Mul(kc, eval.tInvModQ[level])
+		r.AddScalarBigint(pa, kc, want)
+		if out2.Level() == level {
+			vAssertPolyEq(r, vPhase(c, out2), want, "Add-"+s.name+"-phase-is-phase-plus-the-encoded-constant")
+		}
+	}
+	// vector operands
+	vec := make([]uint64, params.MaxSlots())
+	for i := range vec {
+		vec[i] = uint64(5*i+2) % t
+	}
+	ref := NewPlaintext(params, level)
+	ref.Scale = a.Scale
+	if err := c.Ecd.Encode(vec, ref); err != nil {
+		panic(err)
+	}
+	want := r.NewPoly()
+	for oi, out := range []*rlwe.Ciphertext{NewCiphertext(params, 1, level), NewCiphertext(params, 1, params.MaxLevel())} {
+		out.Scale = params.NewScale(9) // what the output held before must not matter
+		tag := "vector-operand-out" + vItoa(oi)
+		vAssert(eval.Add(a, vec, out) == nil, tag+"-Add-no-error")
+		r.Add(pa, ref.Value, want)
+		if out.Level() == level {
+			vAssertPolyEq(r, vPhase(c, out), want, tag+"-Add-adds-the-vector-encoded-at-the-operand-scale")
+		}
+		vAssert(out.Level() == level && out.Scale.Uint64()%t == 3, tag+"-Add-level-and-scale")
+		out.Scale = params.NewScale(9)
+		vAssert(eval.Sub(a, vec, out) == nil, tag+"-Sub-no-error")
+		r.Sub(pa, ref.Value, want)
+		if out.Level() == level {
+			vAssertPolyEq(r, vPhase(c, out), want, tag+"-Sub-subtracts-the-vector-encoded-at-the-operand-scale")
+		}
+	}
+	vCover("C05-scalar-vector-reached")
 }
